@@ -116,6 +116,10 @@ class Normalise(ast.NodeTransformer):
 
     def visit_Call(self, n):
         self.generic_visit(n)
+        # getattr(x, "name") with a literal identifier is x.name
+        if isinstance(n.func, ast.Name) and n.func.id == "getattr" and len(n.args) == 2 and not n.keywords and isinstance(n.args[1], ast.Constant) \
+                and isinstance(n.args[1].value, str) and n.args[1].value.isidentifier() and not n.args[1].value.startswith("__"):
+            return ast.copy_location(ast.Attribute(value=n.args[0], attr=n.args[1].value, ctx=ast.Load()), n)
         if self.in_helper:
             return n
         f = n.func
@@ -317,7 +321,18 @@ class Normalise(ast.NodeTransformer):
             return self._block(stmts[:i + 1])
         return None
 
+    @staticmethod
+    def _setattr_stmt(s):
+        """setattr(x, "name", v) as a statement with a literal identifier -> x.name = v"""
+        if isinstance(s, ast.Expr) and isinstance(s.value, ast.Call) and isinstance(s.value.func, ast.Name) and s.value.func.id == "setattr" and len(s.value.args) == 3 \
+                and not s.value.keywords and isinstance(s.value.args[1], ast.Constant) and isinstance(s.value.args[1].value, str) and s.value.args[1].value.isidentifier() \
+                and not s.value.args[1].value.startswith("__"):
+            c = s.value
+            return ast.copy_location(ast.Assign(targets=[ast.Attribute(value=c.args[0], attr=c.args[1].value, ctx=ast.Store())], value=c.args[2], lineno=s.lineno), s)
+        return s
+
     def _block(self, stmts):
+        stmts = [self._setattr_stmt(x) for x in stmts]
         sunk = self._sink_tail(stmts) if not getattr(self, "_sinking", False) else None
         if sunk is not None:
             return sunk
